@@ -7,6 +7,7 @@ import (
 	age "github.com/craterdog/go-collection-framework/v4/agent"
 	"verifharness/core"
 	"verifharness/lib"
+	"verifharness/model"
 )
 
 // ---------------------------------------------------------------- primitives of different Go types under one Collator[any]
@@ -112,3 +113,60 @@ func execMixed(prop string) func(mixedCase, core.Source) core.Result {
 }
 
 func genMixed(s core.Source) mixedCase { return mixedCase{I: s.Choose(len(mixedPool), "i")} }
+
+// ---------------------------------------------------------------- collators with a tight traversal limit
+
+// MakeWithMaximum(m) bounds the nesting the collator follows.  Whether a pair is within the limit must not
+// depend on the order in which the two values are passed: either both orders end with the depth-limit panic or
+// both return, mirrored.  With m equal to the nesting depth of the deeper value the pair is within the limit
+// and ranks as under the default collator.
+func execTightMaximum(c poolCase, _ core.Source) (res core.Result) {
+	n := len(c.Vals)
+	objs := make([]any, n)
+	for i, v := range c.Vals {
+		objs[i] = model.Build(v)
+	}
+	def := age.Collator[any]().Make()
+	outcome := func(col age.CollatorLike[any], a, b any) (age.Rank, bool, any) {
+		var r age.Rank
+		p, payload := lib.Call(func() { r = col.RankValues(a, b) })
+		return r, p, payload
+	}
+	limited := 0
+	for i := 0; i < n; i++ {
+		for j := 0; j < n; j++ {
+			depth := max(c.Vals[i].Depth(), c.Vals[j].Depth())
+			want := def.RankValues(objs[i], objs[j])
+			for m := max(depth-1, 1); m <= depth+1; m++ {
+				tight := age.Collator[any]().MakeWithMaximum(m)
+				r1, p1, payload1 := outcome(tight, objs[i], objs[j])
+				r2, p2, _ := outcome(age.Collator[any]().MakeWithMaximum(m), objs[j], objs[i])
+				if p1 != p2 {
+					res.Violation = core.Violate("C07/tight-maximum/one-order-only", "with MakeWithMaximum(%d), RankValues(%v, %v) panicked=%v but the opposite order panicked=%v (nesting depths %d and %d)", m, c.Vals[i], c.Vals[j], p1, p2, c.Vals[i].Depth(), c.Vals[j].Depth())
+					return
+				}
+				if p1 {
+					limited++
+					if m >= depth && depth >= 1 {
+						res.Violation = core.Violate("C07/tight-maximum/refused-within-the-limit", "MakeWithMaximum(%d) refused to rank %v and %v, nested %d and %d deep: %s", m, c.Vals[i], c.Vals[j], c.Vals[i].Depth(), c.Vals[j].Depth(), lib.Short(payload1))
+						return
+					}
+					continue
+				}
+				if r2 != mirrorRank(r1) {
+					res.Violation = core.Violate("C07/tight-maximum/not-mirrored", "with MakeWithMaximum(%d), RankValues(%v, %v) = %v but reversed = %v", m, c.Vals[i], c.Vals[j], r1, r2)
+					return
+				}
+				if r1 != want {
+					res.Violation = core.Violate("C07/tight-maximum/differs-from-default", "MakeWithMaximum(%d) ranks %v and %v as %v, the default collator as %v", m, c.Vals[i], c.Vals[j], r1, want)
+					return
+				}
+			}
+		}
+	}
+	res.NonTrivial = n >= 2
+	if limited > 0 {
+		res.Classes = append(res.Classes, "some-pair-beyond-the-limit")
+	}
+	return
+}
